@@ -12,10 +12,10 @@ structure PostB (t : Tid) (sh sh' : Shared) (th th' : Th) : Prop where
   tl : TL sh' th'
   pend : prem sh' → pend th'.pc = true ∨ (prem sh ∧ pend th.pc = false)
 
-theorem tstep_postB {t sh th p ok sh' th'} (h : tstep t sh th p ok = some (sh', th')) (P : Pre t sh th)
-    (hp : p ≠ .decRefStray) : PostB t sh sh' th th' := by
+theorem tstep_postB {t sh th p ok sh' th'} (h : tstep t sh th p ok = some (sh', th')) (P : Pre t sh th) :
+    PostB t sh sh' th th' := by
   obtain ⟨pc, holds, base, res, flag⟩ := th
-  obtain ⟨rcGe, lock, openOfRc, dirOfOpen, mbdOfNoDir, rdExcl, rdGe, tl⟩ := P
+  obtain ⟨rcNonneg, lock, openOfRc, dirOfOpen, mbdOfNoDir, rdExcl, rdGe, tl⟩ := P
   cases pc <;> simp only [tstep] at h
   case idle =>
     cases p <;> simp only [] at h <;> (try split at h) <;> simp at h <;> (try obtain ⟨rfl, rfl⟩ := h) <;>
